@@ -44,6 +44,7 @@ def parseAct (toks : List String) : Option Act :=
   | ["cSel2Ctx", c] => c.toNat?.map .cSel2Ctx
   | ["cSel2Stop", c] => c.toNat?.map .cSel2Stop
   | ["cCancelEnc", c] => c.toNat?.map .cCancelEnc
+  | ["cCancelEncFail", c] => c.toNat?.map .cCancelEncFail
   | ["cCancelDone", c] => c.toNat?.map .cCancelDone
   | ["cCancelAsync", c] => c.toNat?.map .cCancelAsync
   | ["cPoll", c] => c.toNat?.map .cPoll
